@@ -71,6 +71,8 @@ def skolemize_goal(hyps, goal):
         elif z3.is_implies(goal):
             hyps.append(goal.arg(0))
             goal = goal.arg(1)
+        elif z3.is_not(goal) and z3.is_not(goal.arg(0)):
+            goal = goal.arg(0).arg(0)
         else:
             break
     return hyps, goal
@@ -167,12 +169,13 @@ def instantiate_at_skolems(hyps, goal, cap=16):
     def instances(q):
         if q.num_vars() > 3:
             return None
+        special = _higher_order(q) or q.qid() == "lifted"
         pools = [list(sk.get(q.var_sort(k).name(), {}).values()) for k in range(q.num_vars())]
-        if q.num_vars() == 1 and z3.is_int(z3.Const("x", q.var_sort(0))):
+        if special and q.num_vars() == 1 and z3.is_int(z3.Const("x", q.var_sort(0))):
             pools[0] = pools[0] + list(loopidx.values())
         if any(not p_ for p_ in pools):
             return None
-        return [z3.substitute_vars(q.body(), *reversed(combo)) for combo in itertools.islice(itertools.product(*pools), cap)]
+        return [z3.substitute_vars(q.body(), *reversed(combo)) for combo in itertools.islice(itertools.product(*pools), cap if special else 4)]
 
     def weaken(f, pos, depth=0):
         """f with every universally quantified subformula in positive position replaced by the conjunction of its instances at the Skolem
@@ -180,7 +183,7 @@ def instantiate_at_skolems(hyps, goal, cap=16):
         if depth > 6:
             return None
         if z3.is_quantifier(f):
-            if pos and f.is_forall() and _higher_order(f):
+            if pos and f.is_forall():
                 inst = instances(f)
                 return z3.And(*inst) if inst else None
             return None
